@@ -164,6 +164,30 @@ def run_workers(prop, tier, seed, jobs, mode, timeout_s, extra_env=None):
     return results, problems
 
 
+def run_suite_with_contracts(prop):
+    """The repository's own tests as a second workload, with vlib.suite_plugin's contracts recording (thorough tier)."""
+    workdir = os.path.join(ROOT, ".work")
+    os.makedirs(workdir, exist_ok=True)
+    out = os.path.join(workdir, f"suite-{prop}-{os.getpid()}.json")
+    env = dict(os.environ, VERIF_SUITE_OUT=out)
+    env.setdefault("NUMBA_NUM_THREADS", "4")
+    cmd = [sys.executable, "-m", "pytest", "-q", "-p", "no:cacheprovider", "-p", "vlib.suite_plugin", "--timeout=900", os.path.join(REPO, "tests")]
+    try:
+        r = subprocess.run(cmd, env=env, cwd=REPO, capture_output=True, text=True, timeout=3600)
+    except subprocess.TimeoutExpired:
+        return None, "test-suite under contracts hit the 3600 s watchdog"
+    if not os.path.exists(out):
+        return None, f"test-suite under contracts wrote no report: {(r.stdout + r.stderr)[-400:]}"
+    with open(out) as fh:
+        rep = json.load(fh)
+    os.unlink(out)
+    cnt = {f"suite:{k.split(':', 1)[1]}": v for k, v in rep["counters"].items() if k.startswith(prop + ":") and not k.endswith(":violations")}
+    cnt["suite:tests_passed"] = rep["counters"].get("tests_passed", 0)
+    viol = [{"mechanism": v["mechanism"], "what": v["what"], "case": v["case"]} for v in rep["violations"] if v["property"] == prop]
+    return {"evaluations": sum(v for k, v in cnt.items() if k.endswith("_checks")), "counters": cnt, "nontrivial": [], "violations": viol, "nviolations": len(viol),
+            "samples": [], "skipped": {}, "notes": {"suite_last_line": (r.stdout.strip().splitlines() or [""])[-1]}}, None
+
+
 def merge(results):
     from collections import Counter
 
@@ -236,6 +260,13 @@ def parent_main(args) -> int:
         results += r2
         problems += p2
         modes.append("boundscheck")
+    if getattr(mon, "SUITE_CONTRACTS", False) and tier == "thorough":
+        r3, why = run_suite_with_contracts(prop)
+        if r3 is not None:
+            results.append(r3)
+            modes.append("repo-test-suite-with-contracts")
+        else:
+            problems.append({"kind": "suite", "shard": -1, "mode": "suite", "rc": 0, "log": why})
     tot = merge(results)
 
     # worker deaths: a signal death is a crash witness (violation); a watchdog is inconclusive
@@ -308,6 +339,20 @@ def replay_main(args) -> int:
     with open(args.replay) as fh:
         rec = json.load(fh)
     case = rec["case"]
+    if isinstance(case, dict) and "suite_test" in case:
+        # a contract fired while the repository's own test ran: re-run that test under the contracts
+        out = os.path.join(ROOT, ".work", f"suite-replay-{os.getpid()}.json")
+        os.makedirs(os.path.dirname(out), exist_ok=True)
+        subprocess.run([sys.executable, "-m", "pytest", "-q", "-p", "no:cacheprovider", "-p", "vlib.suite_plugin", os.path.join(REPO, case["suite_test"])],
+                       env=dict(os.environ, VERIF_SUITE_OUT=out), cwd=REPO, capture_output=True, text=True, timeout=3600)
+        rep = json.load(open(out)) if os.path.exists(out) else {"violations": []}
+        hit = [v for v in rep["violations"] if v["property"] == args.prop]
+        for v in hit[:5]:
+            print(f"VIOLATION property={args.prop} replay={args.replay}")
+            print(f"  mechanism={v['mechanism']}: {v['what'][:400]}")
+        if not hit:
+            print("replay: no violation reproduced")
+        return 1 if hit else 0
     ctx = Ctx(args.prop, args.tier, args.seed, 0, 1)
     ctx.mode = "normal"
     try:
